@@ -3,13 +3,16 @@ import VerifModel.Model.FigProps
   Driver ops for C17 (plot appearance options).
 
     figprops <plot> <n> <opts>
-        plot  : mae | loc | pithist | reliability | against | map
+        plot  : a plot kind of Spec.Appearance.kinds — mae | loc | time | map | rank | impact | maprank | hist | sort |
+                every documented diagram (qq, scatter, …, timeseries, meteo)
         n     : number of input files (= series)
         opts  : `-` or `;`-separated `flag=value` items in command-line order; a flag without value
                 carries `1`; numbers are protocol tokens (`25/2`), an rgb colour is `[r:g:b]`, `-f`
                 carries the output file name
         reply : canonical FigProps line — `name=value` for every property that is set and observable
-                on that plot, in the order of `Field.all` (`-` if none)
+                on that plot, in the order of `Field.all` (`-` if none); on a plot kind with a time-like axis
+                the x limits / x ticks are dates and are shown as the day numbers that reach the axis
+                (`EXC:ValueError` if one of them is no calendar date)
 
     figindep <plot> <n> <opts> <flag>
         reply : the flags (other than <flag> and those that documentedly depend on it) whose property
